@@ -94,11 +94,12 @@ class SFTPFile(BufferedFile):
         self.sftp._log(DEBUG, "close({})".format(u(hexlify(self.handle))))
         BufferedFile.close(self)
         pending_error = None
-        if (self.pipelined or len(self._reqs) > 0) and not async_:
+        if not async_:
             # collect the status of every outstanding write: a write the
             # server rejected must not go unnoticed
             try:
-                self.sftp._finish_responses(self)
+                if self.pipelined or len(self._reqs) > 0:
+                    self.sftp._finish_responses(self)
                 self._check_exception()
             except Exception as e:
                 pending_error = e
